@@ -28,7 +28,7 @@ CHECKS = {
         text='Decision tables of __setter/__getter/__deleter over value type x name {NULL, "", x} x exists x replace x value pointer x JSON '
              'parse outcome x jansson result: returned code, value->error and the exact sequence of mutating jansson calls per cell against '
              'the operation table (EXIST/INVALID => no mutation; replace => delete then set; nameless JSON => update/update_missing; no '
-             'JSON_DECODE_ANY); dispatch of the public wrappers to the right container.',
+             'JSON_DECODE_ANY); dispatch of the public wrappers to the right container. Flags of the JSON setter\'s parser.',
         design_ref='DESIGN.md section 3 C15, appendix A.6',
         note='NOT decided: jansson\'s map semantics and therefore sequences of operations (histories) - only each operation\'s decision '
              'structure.',
@@ -39,7 +39,7 @@ CHECKS = {
         text='Structural clauses: items linked only by list_add_tail(&item->node,&set->head) in jwks_item_add, unlinked only in __item_free, '
              'never freed inside a non-safe iteration; __item_free releases every owning field with its own family for oct and provider-made '
              'items under either current provider, unlinks before releasing and uses nothing afterwards; jwks_item_free_bad frees exactly '
-             'flagged items and returns the number freed (per-iteration relation); find_bykid returns exact matches of its argument only. Index lookups: an item leaves the walk only on a path where the position counter equals the never-narrowed index argument; the counter is 0 on entry and one higher after every iteration that goes round again (read off the interpreter\'s generic iteration). Releasing an item without any unlink site is a violation.',
+             'flagged items and returns the number freed (per-iteration relation); find_bykid returns exact matches of its argument only. Index lookups: an item leaves the walk only on a path where the position counter equals the never-narrowed index argument; the counter is 0 on entry and one higher after every iteration that goes round again (read off the interpreter\'s generic iteration). Releasing an item without any unlink site is a violation. Every release of an item through the releaser (found by type) is preceded by an unlink of that item, in the releaser or in the caller.',
         design_ref='DESIGN.md section 3 C16',
         note='NOT decided: list semantics under arbitrary operation sequences (the index walk is a per-iteration relation, not an induction), heap-shape invariants of ll.h.',
         technique='who-may-call rule + ownership typestate on the destructor + per-iteration counter relation',
@@ -49,7 +49,7 @@ CHECKS = {
         text='Table and sibling agreement for the JWK importer: which member feeds which provider parameter is extracted from the '
              'importer\'s paths and compared with RFC 7518 6.3 / RFC 8037 and, as inverse, with the exporter in tools/key2jwk.c; every '
              'decoded buffer is consumed with the length produced by decoding that same buffer; each importer reads only member names of '
-             'its own key type; key_ops/use maps, oct bits = 8 x length, private detection, curve names. On every successful exit of each asymmetric importer item->bits is exactly what EVP_PKEY_get_size_t_param(pkey, "bits") reported.',
+             'its own key type; key_ops/use maps, oct bits = 8 x length, private detection, curve names. On every successful exit of each asymmetric importer item->bits is exactly what EVP_PKEY_get_size_t_param(pkey, "bits") reported. Key alg attribute table; RSA vs RSA-PSS type entered at jwk_process_one; is_private_key set exactly on the paths that fed the private component.',
         design_ref='DESIGN.md section 3 C08',
         note='NOT decided: equality of the key numbers and the PEM round trip (numeric, inside OpenSSL).',
         technique='table extraction and sibling cross-check from abstract-interpreter paths and the AST',
@@ -70,7 +70,7 @@ CHECKS = {
         text='Sibling agreement of the provider ops tables (fully populated, unique, shared JWK import/free routines), per-algorithm '
              'hash/padding/salt selection of each provider\'s signer against RFC 7518 (verifiers: C01), the verdict gate per provider, and '
              'jwt_set_crypto_ops/_t/jwt_init evaluated concretely on the provider names, ids and 18 near misses: a provider is selected only '
-             'on an exact name/id and nothing is stored otherwise. Every algorithm a provider signs is accepted by the verifier of every provider that implements it.',
+             'on an exact name/id and nothing is stored otherwise. Every algorithm a provider signs is accepted by the verifier of every provider that implements it. No branch of the generic layer before the provider entry depends on a provider tag.',
         design_ref='DESIGN.md section 3 C12',
         note='NOT decided: byte-identical tokens and cross-acceptance of signatures (runtime crypto).',
         technique='sibling/table agreement + concrete decision tables by abstract interpretation',
@@ -80,7 +80,7 @@ CHECKS = {
         text='For the four tools: agreement of long-option table, short option string, dispatch switch and usage text; jwt-verify\'s exit '
              'expression is 0 exactly for a zero failure count and never wraps modulo 256, the counter being the number of failed '
              'process_one calls; key2jwk writes EC x/y/d with a minimum width of ceil(bits/8) octets; jwk2key writes the item\'s own '
-             'PEM/octets.',
+             'PEM/octets. key2jwk raw keys: k encodes exactly the bytes read; jwt-generate: integer claim values are not narrowed.',
         design_ref='DESIGN.md section 3 C20',
         note='NOT decided: behaviour of the built binaries (process level).',
         technique='table agreement over the AST + expression evaluation + provenance by abstract interpretation',
@@ -104,7 +104,7 @@ CHECKS = {
              'jwk_process_values are analysed as entries with the memory rules (json_string_value dereferenced only after a string type '
              'check, no unassigned length, matching release families) and the per-item contract at every exit (flag with non-empty message, '
              'or key material stored); jwk_process_one and the loaders are analysed on top of the validated outcome summaries: not JSON => '
-             'set error and no item, otherwise one append per parsed item.',
+             'set error and no item, otherwise one append per parsed item. Flags of every jansson load call (no JSON_DISABLE_EOF_CHECK / JSON_ALLOW_NUL); importer summaries are built from the importers\' real exit classes.',
         design_ref='DESIGN.md section 3 C07',
         note='Not decided: what OpenSSL does with hostile numbers, jansson\'s parser, bounds inside base64. The keys-array loop is analysed '
              'by one iteration under havoc. Fault model: allocations succeed.',
@@ -154,7 +154,7 @@ CHECKS = {
              'token object when the callback runs are callback-mutable; afterwards any library query, read or write through them is a '
              'violation (only release is allowed) until the field is re-assigned from a snapshot taken before the callback. Non-zero '
              'callback result => failing call with flag and message; callback-selected key/alg pass __setkey_check; the public token '
-             'API cannot write jwt->alg/key.',
+             'API cannot write jwt->alg/key. A callback failure is any non-zero value; a configured callback is always consulted before the verdict.',
         design_ref='DESIGN.md section 3 C19',
         note='Trusted: clang front end, engine, API model. The only state a callback can change is what the public jwt_t API reaches '
              '(checked by the opaque-token effect rule).',
@@ -182,7 +182,7 @@ CHECKS = {
              'whose data operand is the unchanged signing input, whose key is the configured key, with the RFC 7518 digest/padding. '
              'Every slice of the decoded signature passed to the crypto library is shown to lie inside it by linear reasoning over the '
              'path equalities. The signing input handed down is the raw token up to the second dot. The policy and key-kind tables of '
-             'C02 are re-evaluated (a MAC under the empty key is not a valid signature by the configured key).',
+             'C02 are re-evaluated (a MAC under the empty key is not a valid signature by the configured key). The repo\'s own compare primitive (jwt_strcmp) is evaluated on a partition of operand pairs (equal / proper prefix with length differences at the integer-width boundaries / one differing byte).',
         design_ref='DESIGN.md section 3 C01',
         note='Trusted: the crypto libraries verify correctly; clang front end; engine; API model. Not decided: correctness of '
              'jwt_strcmp\'s and jwt_parse\'s loops over runtime bytes (only the relation of their results to the operands).',
@@ -195,7 +195,7 @@ CHECKS = {
              '(15 names + 38 near misses, comparison loop interpreted concretely) and the key size/kind gate of jwt_sign and '
              'jwt_verify_sig (3 360 cells) are evaluated cell by cell by the abstract interpreter and compared with oracle tables '
              'from RFC 7518 and the documented setkey table; plus a must-pass-through rule that the (alg,key) pair used after the '
-             'callback is the one __setkey_check admitted. Obligations = cells + path sinks; exhaustive over the partition.',
+             'callback is the one __setkey_check admitted. Obligations = cells + path sinks; exhaustive over the partition. The key\'s own alg attribute (unknown names stay INVAL), the token object\'s key equal to the admitted key, a configured callback consulted before the verdict, and the compare primitive behind the name tables are decided too.',
         design_ref='DESIGN.md section 3 C02, appendix A.1-A.3',
         note='Trusted: clang front end, engine, API model. The partition of integer inputs is sound because they are only compared '
              'with constants. Family mismatches among asymmetric key types are left to the providers/crypto libraries (the unedited '
@@ -227,7 +227,7 @@ CHECKS = {
         category='proof',
         text='Every path of jwt_checker_verify and jwt_builder_generate (both providers, any callback, any allocation '
              'outcome, any library result) is enumerated by a path-sensitive abstract interpreter; at each exit the '
-             'returned value must agree with the error flag and message state. Obligations = path exits; all discharged.',
+             'returned value must agree with the error flag and message state. Obligations = path exits; all discharged. The keyring-item contract (C07) and the code/value->error agreement of the header/claim calls (C15 tables) are part of this check.',
         design_ref='DESIGN.md section 3 C14',
         note='Trusted: clang front end, API model (lib/model.py), engine (lib/interp.py); base64 helper summaries are '
              're-validated against the implementation on every run. Not decided: none material (finite path sets); '
